@@ -510,6 +510,14 @@ func genConn(r *rng.R) *fnode {
 				c.getters[i].kind = kGo
 			}
 		}
+		// Two failing range queries of one field, the first through a promise and the second
+		// synchronously: the resolver reports the second at once, its all-synchronous version the
+		// first.  Which of the two failures of the same field is reported is decided by the
+		// connection resolver before any promise is awaited, not by Go/Batch/the idle handler, so
+		// "same response as the synchronous run" is not defined for it: not generated.
+		if len(c.getters) == 2 && c.getters[0].kind != kSync && c.getters[0].fail && c.getters[1].kind == kSync {
+			c.getters[1].fail = false
+		}
 		c.edges = r.Intn(4)
 	case 2:
 		c.getters = []gmode{genGetter(r)}
